@@ -2,6 +2,7 @@ package config
 
 import (
 	"path/filepath"
+	"sort"
 	"strings"
 
 	"github.com/jmattheis/goverter/config/parse"
@@ -41,6 +42,9 @@ func getPackages(raw *Raw) []string {
 	for pkg := range lookup {
 		pkgs = append(pkgs, "pattern="+pkg)
 	}
+	// load in a fixed order: which package a load error that involves several packages is
+	// reported for depends on the order of the patterns
+	sort.Strings(pkgs)
 
 	return pkgs
 }
